@@ -30,9 +30,12 @@ KEYS = ['gdown', 'gup', 'gdet', 'Gamma_udd', 'Gamma_down', 'Riemann_uddd', 'Riem
 class World:
     """generic metric jet of order 3 in n variables over Q and every textbook tensor derived from it"""
 
-    def __init__(self, n, seed, explicit=False):
+    def __init__(self, n, seed, explicit=False, zero=()):
+        # zero: index pairs (i, k), i <= k, whose metric component is *structurally* zero (sympy 0) -- the regime of
+        # sparse metrics: a vanishing covariant component does not make the contravariant one vanish
         self.n = n
-        rng = random.Random(f'C15/{n}/{seed}')
+        zero = {tuple(sorted(z)) for z in zero}
+        rng = random.Random(f'C15/{n}/{seed}/{sorted(zero)}' if zero else f'C15/{n}/{seed}')
         F = self.F = Field('q')
         self.coords = sp.symbols('x0:%d' % n)
         if explicit:
@@ -46,6 +49,8 @@ class World:
                     gm[i, k] = gm[k, i] = xs[i] * xs[k] + xs[i]
             if n == 4:
                 gm[3, 3] = -gm[3, 3]
+            for (i, k) in zero:
+                gm[i, k] = gm[k, i] = 0
             self.explicit_metric = gm.applyfunc(sp.expand)
 
         def rj():
@@ -66,7 +71,7 @@ class World:
                 return J(F, 3, c)
             g = arr([[jet_of(self.explicit_metric[i, k]) for k in range(n)] for i in range(n)])
         else:
-            L = [[rj() for _ in range(n)] for _ in range(n)]
+            L = [[rj() if (min(i, k), max(i, k)) not in zero else J(F, 3, {}) for k in range(n)] for i in range(n)]
             g = arr([[L[min(i, j)][max(i, j)] for j in range(n)] for i in range(n)])
         S = self.S = {}
         S['gdown'] = g
@@ -162,11 +167,12 @@ def compare(W, res, spec):
 
 
 _WORLDS = {}
+SPARSE = {3: (((0, 1),), ((0, 0),), ((0, 1), (0, 2))), 4: (((0, 3),),)}
 
 
 def _fo_task(args):
     """one (method, dimension, simplify, cache state) obligation; -> (status, detail, bad, secs)"""
-    name, n, simplify, present, seed, cap = args
+    name, n, simplify, present, seed, cap, zero = args
     import signal
     import aurel.coresymbolic as CS
     cls = CS.AurelCoreSymbolic
@@ -177,11 +183,11 @@ def _fo_task(args):
     t0 = time.time()
     try:
         signal.alarm(cap)
-        W = _WORLDS.get((n, seed)) or _WORLDS.setdefault((n, seed), World(n, seed))
+        W = _WORLDS.get((n, seed, zero)) or _WORLDS.setdefault((n, seed, zero), World(n, seed, zero=zero))
         res = getattr(cls, name)(Stub(W, simplify, set(present)))
         bad = compare(W, res, W.S[name])
         signal.alarm(0)
-        return ('refuted' if bad else 'discharged', f'code != textbook {name} for a generic non-diagonal metric' if bad else '', bad or None, time.time() - t0)
+        return ('refuted' if bad else 'discharged', f'code != textbook {name} for a generic non-diagonal metric' + (f' with structurally zero components {list(zero)}' if zero else '') if bad else '', bad or None, time.time() - t0)
     except TimeoutError:
         return ('skipped', f'sympy did not finish within {cap} s', None, time.time() - t0)
     except Exception as e:
@@ -207,18 +213,24 @@ def function_obligations(R, dims, seed):
                     present = {'gdown'} | {k for k, b in zip(gkeys, bits) if b}
                     lab = '+'.join(k for k, b in zip(gkeys, bits) if b) or '-'
                     # dimension 4: sympy's symbolic inverse / simplification of 4x4 polynomial matrices takes minutes; capped
-                    tasks.append((name, n, simplify, sorted(present), seed, 600 if n < 4 else 300, lab))
+                    tasks.append((name, n, simplify, sorted(present), seed, 600 if n < 4 else 300, lab, ()))
+                    # sparse metrics: a zero off-diagonal component whose inverse component does not vanish (indices coupled
+                    # through a third one), a zero diagonal component (null coordinate), a block-diagonal metric
+                    for zero in SPARSE.get(n, ()):
+                        tasks.append((name, n, simplify, sorted(present), seed, 600 if n < 4 else 300, lab, zero))
     tasks.sort(key=lambda t: -t[1])
     with mp.Pool(14) as pool:
-        res = pool.map(_fo_task, [t[:6] for t in tasks], chunksize=1)
-    for (name, n, simplify, present, seed_, cap, lab), (st, det, bad, secs) in zip(tasks, res):
+        res = pool.map(_fo_task, [t[:6] + t[7:] for t in tasks], chunksize=1)
+    for (name, n, simplify, present, seed_, cap, lab, zero), (st, det, bad, secs) in zip(tasks, res):
         R.paths += 1
+        zl = ('|zero=' + ','.join(f'g{i}{k}' for i, k in zero)) if zero else ''
+        lab = lab + zl
         if st == 'skipped':
             R.notes.append(f'symbolic.{name}[n={n},simplify={simplify}|{lab}]: not decided in this run ({det}); dimensions 2 and 3 are decided for every method, flag and cache state')
             continue
         R.ob(f'symbolic.{name}[n={n},simplify={simplify}|{lab}]:ensures', name, st, 'pit-exact-Q', secs, det,
-             bad, witness=dict(n=n, simplify=simplify, present=present, seed=seed),
-             replay=lambda o, name=name, n=n, simplify=simplify, present=present: native_replay(name, n, simplify, present))
+             bad, witness=dict(n=n, simplify=simplify, present=present, seed=seed, zero=[list(z) for z in zero]),
+             replay=lambda o, name=name, n=n, simplify=simplify, present=present, zero=zero: native_replay(name, n, simplify, present, zero=zero))
 
 
 def getitem_obligations(R):
@@ -253,11 +265,12 @@ def chain_obligations(R, seed, tier):
     import aurel.coresymbolic as CS
     orders = [KEYS[1:], list(reversed(KEYS[1:])),
               ['Ricci_down', 'Riemann_down', 'Riemann_uddd', 'Riemann_down', 'Ricci_down', 'Einstein_down', 'RicciS', 'Gamma_down']]
-    cfgs = [(2, False), (3, False)] + ([(2, True), (4, False)] if tier != 'quick' else [])
+    cfgs = [(2, False, ()), (3, False, ()), (3, False, ((0, 1),))] + ([(2, True, ()), (4, False, ()), (4, False, ((0, 3),))] if tier != 'quick' else [])
     t_chain = time.time()
     budget = 900                      # wall-clock budget of the thorough extras (sympy on 4 dimensions is slow)
-    for n, simplify in cfgs:
-        W = World(n, seed, explicit=True)
+    for n, simplify, zero in cfgs:
+        W = World(n, seed, explicit=True, zero=zero)
+        zl = (',zero=' + ','.join(f'g{i}{k}' for i, k in zero)) if zero else ''
         for oi, order in enumerate(orders):
             if (n, simplify) in ((2, True), (4, False)) and time.time() - t_chain > budget:
                 R.notes.append(f'chain n={n} simplify={simplify} order#{oi}: not run (time budget of {budget} s for the thorough extras used up); covered by the per-function obligations')
@@ -289,14 +302,14 @@ def chain_obligations(R, seed, tier):
                 signal.alarm(0)
                 signal.signal(signal.SIGALRM, old)
             for k in dict.fromkeys(reached if 'raised' not in bad else order):
-                R.ob(f'symbolic.chain.{k}[n={n},simplify={simplify},order#{oi}]:property', k,
+                R.ob(f'symbolic.chain.{k}[n={n},simplify={simplify}{zl},order#{oi}]:property', k,
                      'refuted' if k in bad or 'raised' in bad else 'discharged', 'pit-exact-Q', (time.time() - t0) / len(order),
                      'rel[key] after the request history != textbook' if k in bad or 'raised' in bad else '',
                      bad.get(k) or bad.get('raised'),
-                     replay=lambda o, k=k, n=n, simplify=simplify: native_replay(k, n, simplify, ['gdown'], chain=True))
+                     replay=lambda o, k=k, n=n, simplify=simplify, zero=zero: native_replay(k, n, simplify, ['gdown'], chain=True, zero=zero))
 
 
-def native_replay(name, n, simplify, present, chain=False):
+def native_replay(name, n, simplify, present, chain=False, zero=()):
     """the real class on an explicit, human-readable non-diagonal metric, compared with an
     independent sympy computation (Christoffel -> Riemann -> Ricci from the definitions)."""
     import aurel.coresymbolic as CS
@@ -309,6 +322,8 @@ def native_replay(name, n, simplify, present, chain=False):
             g[i, k] = g[k, i] = xs[i] * xs[k] + xs[i]
     if n == 4:
         g[3, 3] = -g[3, 3]
+    for (i, k) in zero:
+        g[i, k] = g[k, i] = 0
     gi = g.inv()
     Gam = [[[sum(gi[i, m] * (sp.diff(g[m, k], xs[j]) + sp.diff(g[m, j], xs[k]) - sp.diff(g[j, k], xs[m])) for m in range(n)) / 2
              for k in range(n)] for j in range(n)] for i in range(n)]
@@ -343,7 +358,9 @@ def native_replay(name, n, simplify, present, chain=False):
     for idx in (np.ndindex(*shape) if shape else [()]):
         cv = sp.nsimplify(sp.sympify(out[idx] if shape else out).subs(pt), rational=True)
         rv = sp.nsimplify(sp.sympify(ref[name](idx)).subs(pt), rational=True)
-        if sp.simplify(cv - rv) != 0:
+        dv = sp.simplify(cv - rv)
+        # the code's 1/2 factors are binary floats: differences at rounding level are not discrepancies
+        if dv != 0 and abs(float(sp.N(dv, 30))) > 1e-9 * (1 + abs(float(sp.N(rv, 30)))):
             lines.append(f'  component {list(idx)}: code {sp.N(cv, 8)} vs textbook {sp.N(rv, 8)}')
             bad = True
             if len(lines) > 10:
